@@ -66,9 +66,10 @@ func (p *Parser) rune() rune {
 		// p.r instead of b so that newline
 		// character positions don't have col 0.
 		p.line++
-		p.col = 0
+		p.col = 1
+	} else {
+		p.col += int64(p.w)
 	}
-	p.col += int64(p.w)
 	bquotes := 0
 retry:
 	if p.bsp >= uint(len(p.bs)) && p.fill() == 0 {
